@@ -1,7 +1,7 @@
 (* C04 — Aggregation results do not depend on merge order or grouping.
    Only the property theorems (closed by [exact]) and non-vacuity examples. *)
 From Coq Require Import ZArith QArith List Bool Permutation MSets.MSetPositive.
-From SH Require Import Gen.AggConsts Agg.Model Agg.ProofsValue Agg.ProofsUnique.
+From SH Require Import Gen.AggConsts Agg.Model Agg.ProofsValue Agg.ProofsUnique Agg.ProofsTable.
 Import ListNotations.
 
 (* "Merging the same multiset of contributions in any order and any grouping yields the same count, min, max
@@ -120,6 +120,44 @@ Theorem C04_unique_tree_canonical :
   forall M t s, (1 <= M)%Z -> Forall (wfs M) (leaves t) -> evals M t s ->
   canon M (lskip (leaves t)) (lunion (leaves t)) (lzero (leaves t)) s /\ bounded (lunion (leaves t)).
 Proof. exact tree_canon. Qed.
+
+(* ---- the open-addressing table (what the Go code runs) refines the set level ----
+   Table invariant [tinv] = [winv] (cells beyond the size empty; every stored hash in (0,2^32) and divisible by 2^skip;
+   no duplicates; itemsCount = occupied cells + zero flag; sizeDegree within bounds) + [probing] (all cells from the
+   home cell of a stored hash to its position, cyclically, are occupied) + itemsCount <= maxFill.
+   insertImpl (the probe loop as the code runs it, incl. termination): preserves the invariant and is the set-level
+   insert on the abstraction. Unconditional. *)
+Theorem C04_table_insert_refines :
+  forall s a x, tinv s -> absR s a -> 0 <= x < 2 ^ 32 -> good (t_skip s) x = true ->
+  let s' := t_insert_impl s x in
+  winv s' /\ probing s' /\ absR s' (s_insert_impl a x) /\ t_sd s' = t_sd s /\ t_skip s' = t_skip s /\
+  t_cnt s' <= t_cnt s + 1.
+Proof. exact insert_impl_absR. Qed.
+
+(* the executable abstraction used by the correspondence check is the abstraction relation *)
+Theorem C04_table_abs_sound : forall s, winv s -> absR s (t_abs s).
+Proof. exact absR_t_abs. Qed.
+
+(* "any order and any grouping ... same unique-value estimate", for the REAL table operations: any two merge trees
+   of the table-level Merge (current code) over permutations of the same tables report the same skip degree,
+   itemsCount, zero flag, stored hashes and Size(true), and the invariant is preserved.
+   PARTIAL: modulo [rehash_ok] and [resize_ok] - that the two in-place reorganisation loops (rehash with its
+   wrap-around second loop; resize with its "|| buf[i] != 0" tail) keep the set of stored hashes (filtered by the new
+   skip degree for rehash) and re-establish the invariant incl. the probing invariant. Everything else (insertImpl,
+   shrinkIfNeed's case analysis, the thinning loop, Merge's three phases, table order, counting, the lift through
+   C04_unique_merge_tree_perm) is proved. The two premises are validated on every replayed case (the model's table is
+   compared cell by cell with the Go table, and the Go table is checked for the invariant after every operation). *)
+Theorem C04_unique_table_merge_tree_perm_partial :
+  rehash_ok -> resize_ok -> forall t1 t2,
+  Forall tinv (leaves t1) -> Permutation (leaves t1) (leaves t2) ->
+  t_skip (t_eval t1) = t_skip (t_eval t2) /\ t_cnt (t_eval t1) = t_cnt (t_eval t2) /\
+  t_zero (t_eval t1) = t_zero (t_eval t2) /\ (forall y, holds (t_eval t1) y <-> holds (t_eval t2) y) /\
+  t_size_as_is (t_eval t1) = t_size_as_is (t_eval t2) /\ tinv (t_eval t1) /\ tinv (t_eval t2).
+Proof. exact table_merge_tree_perm. Qed.
+
+(* non-vacuity of the table theorems: the table after Reset satisfies the invariant *)
+Example C04_nonvacuous_table : tinv (t_reset tsk_nil) /\ t_size_as_is (t_eval (Node (Leaf (t_reset tsk_nil)) (Leaf (t_insert (t_reset tsk_nil) 7)))) = 1.
+Proof. split; [exact tinv_reset | vm_compute; reflexivity]. Qed.
 
 (* non-vacuity: concrete leaves satisfying the guards, a tree and its mirror image with different draws *)
 Definition ex_l1 : ivalue := fst (apply_events ivalue0 [EValue (3#2) 2 7; ECount 1 9] [2%Z]).
